@@ -28,6 +28,8 @@ type HarnessSpec struct {
 	Permute   bool   `json:"permute"` // all map iteration orders
 	Track     bool   `json:"track"`   // ghost write tracking
 	Allocs    bool   `json:"allocs"`  // ghost allocation tracking
+	PanicObls bool   `json:"panicobls"` // list every implicit no-panic check of own code as an obligation
+	KeepGeom  bool   `json:"keepgeom"` // do not merge byte windows of different concrete geometry
 	Params    map[string]int `json:"params"` // harness-visible bounds (ndParam)
 	Timeout   int    `json:"timeout_s"`
 	Bounds    string `json:"bounds"`  // human-readable statement of the bounds
@@ -75,6 +77,8 @@ func newEngine(prog *ssa.Program, pkgs map[string]*ssa.Package, spec HarnessSpec
 		e.cfg.AppendCap = 16
 	}
 	e.permuteMaps = spec.Permute
+	keepGeometry = spec.KeepGeom
+	e.panicObls = spec.PanicObls
 	e.trackAllocs = spec.Allocs
 	e.params = spec.Params
 	e.registerIntrinsics()
@@ -300,6 +304,7 @@ type replayOutcome struct {
 	Panicked string
 	AssumeKO bool
 	Done     bool
+	OOM      bool // the replay process died with an out-of-memory error inside this case
 }
 
 func nativeReplay(verifDir, pkg string, cases []replayCase) (map[string]*replayOutcome, string, error) {
@@ -323,12 +328,25 @@ func nativeReplay(verifDir, pkg string, cases []replayCase) (map[string]*replayO
 	}
 	defer os.Remove(batch)
 	target := "."
+	sub := ""
 	if pkg == "encoding" {
 		target = "./encoding"
+		sub = "encoding"
 	}
-	cmd := exec.Command("go", "test", "-tags", "verif", "-overlay", ovPath, "-run", "^TestVerifReplay$", "-count=1", "-vet=off", "-v", "-timeout", "300s", target)
-	cmd.Dir = repoDir
-	cmd.Env = append(os.Environ(), "VERIF_REPLAY_FILE="+batch, "GOFLAGS=-mod=mod", "GOPROXY=off", "GOSUMDB=off", "GOTOOLCHAIN=local")
+	env := append(os.Environ(), "VERIF_REPLAY_FILE="+batch, "GOFLAGS=-mod=mod", "GOPROXY=off", "GOSUMDB=off", "GOTOOLCHAIN=local")
+	// build the test binary, then run it under an address-space limit so that a hostile
+	// allocation kills only the replay process (reported as such), never the machine
+	bin := filepath.Join(verifDir, "out", "replay", fmt.Sprintf("replay-%d-%d.test", os.Getpid(), time.Now().UnixNano()))
+	defer os.Remove(bin)
+	build := exec.Command("go", "test", "-c", "-tags", "verif", "-overlay", ovPath, "-vet=off", "-o", bin, target)
+	build.Dir = repoDir
+	build.Env = env
+	if bo, err := build.CombinedOutput(); err != nil {
+		return res, string(bo), fmt.Errorf("native replay build failed")
+	}
+	cmd := exec.Command("sh", "-c", "ulimit -v 8388608; exec \"$0\" -test.run '^TestVerifReplay$' -test.v -test.timeout 300s", bin)
+	cmd.Dir = filepath.Join(repoDir, sub)
+	cmd.Env = env
 	outb, _ := cmd.CombinedOutput()
 	out := string(outb)
 	var cur *replayOutcome
@@ -351,6 +369,9 @@ func nativeReplay(verifDir, pkg string, cases []replayCase) (map[string]*replayO
 			cur.Done = true
 			cur = nil
 		}
+	}
+	if cur != nil && (strings.Contains(out, "out of memory") || strings.Contains(out, "cannot allocate memory")) {
+		cur.OOM = true
 	}
 	if !strings.Contains(out, "VERIF-BEGIN") {
 		return res, out, fmt.Errorf("native replay produced no results")
@@ -443,6 +464,16 @@ func runHarness(verifDir string, spec HarnessSpec, seed int, thorough bool) (*Ha
 		res.Replays = len(cases)
 		if err != nil {
 			res.Inconcl = append(res.Inconcl, "native replay failed: "+err.Error()+": "+tail(raw, 600))
+		} else {
+			// a case that killed the process takes the rest of the batch with it: re-run the
+			// unfinished ones one by one
+			for _, cs := range cases {
+				if ro := rr[cs.ID]; ro == nil || (!ro.Done && !ro.OOM && ro.Panicked == "") {
+					if r1, _, e1 := nativeReplay(verifDir, spec.Pkg, []replayCase{cs}); e1 == nil && r1[cs.ID] != nil {
+						rr[cs.ID] = r1[cs.ID]
+					}
+				}
+			}
 		}
 		for i, ob := range e.Obls {
 			if ob.Result != "violated" {
@@ -450,6 +481,9 @@ func runHarness(verifDir string, spec HarnessSpec, seed int, thorough bool) (*Ha
 			}
 			ro := rr[fmt.Sprintf("ob%d", i)]
 			switch {
+			case ro != nil && ro.OOM && strings.HasPrefix(ob.ID, "c06-"):
+				ob.Confirmd = true
+				ob.Note = "native run died with an unrecoverable out-of-memory error (address space limited to 8 GiB)"
 			case ro == nil || !ro.Done && ro.Panicked == "":
 				ob.Result = "inconclusive"
 				ob.Note = "native replay did not complete"
@@ -468,7 +502,7 @@ func runHarness(verifDir string, spec HarnessSpec, seed int, thorough bool) (*Ha
 		}
 		for _, id := range e.CoverOrder {
 			cr := e.Covers[id]
-			if ro := rr["cover:"+id]; ro != nil && contains(ro.Covers, id) {
+			if ro := rr["cover:"+id]; ro != nil && (contains(ro.Covers, id) || (cr.SymOnly && ro.Done)) {
 				cr.Native = true
 			}
 		}
